@@ -204,7 +204,7 @@ def in_basis_context(cx, N, Nt, planes=None):
 
 
 @harness("C08", "after_transform",
-         quick=[dict(N=2, Nt=2)], thorough=[dict(N=2, Nt=2)],
+         quick=[dict(N=2, Nt=2)], thorough=[dict(N=2, Nt=2), dict(N=3, Nt=2)],
          functions=["quantarhei/qm/liouvillespace/superoperator.py:SuperOperator.transform",
                     F + ":EvolutionSuperOperator.calculate"],
          bound="N=2, 2 grid points, elementary step abstracted to an arbitrary array: after transform(S) with an "
